@@ -329,6 +329,8 @@ def main():
     summ = json.load(open(os.path.join(rundir, "summary.json")))
     bad_im, bad_is = [], []
     coq_cases = 0
+    # optional per-property count lists printed by the case files (e.g. skipped comparisons): summed over the shards
+    coq_counts = {name: None for name in cfg.get("count_lists", {})}
     with ThreadPoolExecutor(max_workers=16) as ex:
         for path, im, isl, out in ex.map(run_case_file, summ.get("case_files") or []):
             logf.write(out)
@@ -337,6 +339,11 @@ def main():
             bad_im += im
             bad_is += isl
             coq_cases += 1
+            for name in coq_counts:
+                vals = parse_printed_list(out, name)
+                if vals is not None:
+                    old = coq_counts[name] or [0] * len(vals)
+                    coq_counts[name] = [a + b for a, b in zip(old, vals)]
     cases = summ.get("cases", {})
 
     # ---------------- verdict
@@ -420,7 +427,9 @@ def main():
                 "correspondence": {"cases": summ.get("evaluations", 0), "case_files_evaluated_by_vm_compute": coq_cases,
                                    "disagree_IM": len(bad_im), "disagree_IS_coq": len(bad_is),
                                    "disagree_IS_go": len(summ.get("go_violations") or []),
-                                   "skipped": summ.get("skipped", {})},
+                                   "skipped": summ.get("skipped", {}),
+                                   "coq_counts": {name: dict(zip(cfg["count_lists"][name], vals or []))
+                                                  for name, vals in coq_counts.items()}},
                 "distribution": summ.get("distribution", {}),
                 "tables": tables,
                 "known_findings_reobserved": sorted(known_hit.keys()),
